@@ -200,6 +200,23 @@ def install(it):
         if isinstance(m, SegMask):
             return (IdxSel(IdxBase(m.conds), m.family),)
         raise CheckerError('np.where on %r' % (m,))
+    def conj(x):
+        # the stored values may be complex (calc_cA): conj is an uninterpreted map, conj(V) == V only for real V
+        def cj(p):
+            p = normal(_P(p))
+            if p.is_const():
+                return p
+            return P.atom('conj(%s)' % p.text())
+        if isinstance(x, SegVec):
+            return x._map(cj)
+        if isinstance(x, SelVals):
+            return SelVals([cj(v) for v in x.vals], x.sel, x.negated)
+        x0 = pysym._unwrap0(x)
+        if isinstance(x0, (P, int, float)):
+            return cj(x0)
+        raise CheckerError('np.conj(%r)' % (x,))
     it.np.concatenate = concatenate
     it.np.where = where
+    it.np.conj = conj
+    it.np.conjugate = conj
     return coo
